@@ -66,7 +66,7 @@ def check_case(acc, src, origin):
             from . import c10
 
             ptoks = gen_py.py_tokens(src)
-            neutral = (c10.strip_deep_specs(src, ptoks) if ptoks else None) or re.sub(r"\{(\w+):[^{}'\"]*\{[^{}'\"]*\}\}", r"{\1}", src)
+            neutral = (c10.strip_deep_specs(src, ptoks) if ptoks else None) or re.sub(r"\{([^{}:'\"]+):[^{}'\"]*\{[^{}:'\"]*:[^{}'\"]*\{[^{}'\"]*\}[^{}'\"]*\}[^{}'\"]*\}", r"{\1}", src)
             if neutral == src:
                 # text that CPython cannot tokenize: a field with a spec of its own after a ':' that is still open (spec context)
                 neutral = re.sub(r"(:(?:[^{}\"]|\{\w+\})*)\{(\w+):[^{}]*\}", r"\1{\2}", src)
